@@ -14,7 +14,7 @@
 /* sanitizer defaults: classified by exit code 77, no leak sweep (the simulator does its own accounting) */
 __attribute__((used)) const char* __asan_default_options(void) { return "exitcode=77:detect_leaks=0:allocator_may_return_null=1:abort_on_error=0:detect_stack_use_after_return=0"; }
 __attribute__((used)) const char* __ubsan_default_options(void) { return "exitcode=77:print_stacktrace=1"; }
-__attribute__((used)) const char* __tsan_default_options(void) { return "exitcode=77:halt_on_error=1:report_signal_unsafe=0:second_deadlock_stack=1:report_thread_leaks=0"; }
+__attribute__((used)) const char* __tsan_default_options(void) { return "exitcode=77:halt_on_error=1:report_signal_unsafe=0:second_deadlock_stack=1:report_thread_leaks=0:allocator_may_return_null=1"; }
 
 /* Simulator infrastructure and harness code are not TSan-instrumented, but the libc interceptors they call (memcpy,
  * strcmp, snprintf...) are, and infrastructure bookkeeping is touched by every simulated thread (serialised by the
